@@ -73,7 +73,9 @@ def leading(draw):
     if k == 6:
         return draw(atom_name) + ' - ' + draw(atom_name)
     if k == 7:
-        return draw(st.sampled_from(['max(a, b)', 'min(x,y)*2', 'abs(a - b)', 'max(a,b) + y']))
+        # opaque expressions; floor division and modulo do NOT distribute over a sign or a constant in front
+        return draw(st.sampled_from(['max(a, b)', 'min(x,y)*2', 'abs(a - b)', 'max(a,b) + y', '-(a//b)', '-(a % b)',
+                                     '-(x//2)', 'a//b', '-(y % 3)', '(a//b)*x']))
     if k == 8:
         return draw(atom_name) + ' + ' + draw(core_term())
     if k == 9:
